@@ -463,9 +463,6 @@ def run_check(pid, tier, seed, replay=None):
         seen_min = set()
         known_hits = {}
         for op, inp, o, m, sname in res.holds_fail[:200]:
-            def still(c, op=op):
-                return not holds_on_impl(prop, driver, op, c)[0]
-
             def match_known(i, ob, op=op):
                 for k in known_open:
                     try:
@@ -475,6 +472,13 @@ def run_check(pid, tier, seed, replay=None):
                         pass
                 return None
             pre = match_known(inp, o)
+
+            def still(c, op=op, pre=pre):
+                ok_c, o_c, _m = holds_on_impl(prop, driver, op, c)
+                if ok_c:
+                    return False
+                # never shrink a new failure into the class of a known finding
+                return pre is not None or match_known(c, o_c) is None
             if pre is not None and known_hits.get(pre['id'], 0) >= 3:
                 # three members of this known class were already confirmed (after shrinking) on this run
                 known_hits[pre['id']] += 1
